@@ -175,6 +175,8 @@ def lsCmd (arg : String) : String :=
      | "sum" => toString (Ls.vySum l)
      | "product" => toString (Ls.vyProduct l)
      | "reverse" => showInts l.reverse
+     | "powerset" => showIntss (Ls.powerset l)
+     | "permutations" => showIntss (Ls.permutations l)
      | _ => "BADFN")
   | _ => "BADARG"
 
